@@ -242,7 +242,7 @@ impl Prop for C13 {
                 name: "enum-ops",
                 kind: StageKind::Enumerate { scope: "all ops of the four kinds with offsets and lengths in 0..4".into(), exhaustive: true, gen: enum_ops },
             },
-            Stage { name: "random", kind: StageKind::Random { strategy: strat, cases: tier.pick(500_000, 8_000_000) } },
+            Stage { name: "random", kind: StageKind::Random { strategy: strat, cases: tier.pick(1_500_000, 8_000_000) } },
         ]
     }
     fn check(case: &Case, obs: &mut Obs) -> Verdict {
